@@ -51,7 +51,7 @@ type Case struct {
 }
 
 func placements() []string {
-	p := []string{"A1", "A1", "A2", "B", "raw", "A3", "B3"}
+	p := []string{"A1", "A1", "A2", "B", "raw", "A3", "B3", "L1", "L2"}
 	if !vt.Known("C13:two-clients-one-connection") {
 		p = append(p, "C1", "C2")
 	} else {
@@ -196,7 +196,7 @@ func checkCase(c Case) error {
 	var sessA, sessB bus.Session
 	var cache *bus.Cache
 	mkSession := func() (bus.Session, error) { return session.NewAuthSession(env.Addr, "u", "t") }
-	var a1, a2, a3, b1, b3, c1, c2 space.BombProxy
+	var a1, a2, a3, b1, b3, c1, c2, l1, l2 space.BombProxy
 	var rawc *netkit.RawClient
 	need := map[string]bool{}
 	for _, p := range c.Places {
@@ -254,6 +254,16 @@ func checkCase(c Case) error {
 		}
 		c1, c2 = space.MakeBomb(cache, p1), space.MakeBomb(cache, p2)
 	}
+	if need["L1"] || need["L2"] {
+		// two proxies handed out by the server's own local session (in-process clients)
+		ls := env.Server.Session()
+		p1, err1 := ls.Proxy("Bomb", 1)
+		p2, err2 := ls.Proxy("Bomb", 1)
+		if err1 != nil || err2 != nil {
+			return vt.Violationf("C13:setup", "local proxy: %v %v", err1, err2)
+		}
+		l1, l2 = space.MakeBomb(ls, p1), space.MakeBomb(ls, p2)
+	}
 	if need["raw"] {
 		if rawc, err = netkit.Dial(env.Addr); err != nil || !rawc.Authenticate("u", "t", bound) {
 			return vt.Violationf("C13:setup", "raw client: %v", err)
@@ -283,6 +293,10 @@ func checkCase(c Case) error {
 			s.proxy = c1
 		case "C2":
 			s.proxy = c2
+		case "L1":
+			s.proxy = l1
+		case "L2":
+			s.proxy = l2
 		case "raw":
 			s.raw = rawc
 		}
